@@ -6,6 +6,10 @@ HERE = os.path.dirname(os.path.dirname(os.path.abspath(__file__)))
 props = [json.loads(l) for l in open(os.path.join(HERE, "properties.jsonl"))]
 
 CLAIMS = {
+ "C20": dict(
+  technique="custom static checker: taint rule over the TeamCity writer methods (every non-literal string argument of print must pass printEscaped), exhaustive constant folding of the escaper's loop body over all 255 char values against the TeamCity escape table, per-path literal framing grammar, call pairing",
+  text="Decides escaping completeness for every service message writer, the exact escape table for every char value (exhaustive finite partition), that each path of each writer emits only complete ##teamcity[...] messages naming the stored test/group, and that start/finish callbacks bracket runOneTest on every path. Balance over concrete runs follows from C02.R4 and is not decided as a run-time count.",
+  note="Trusted: clang 14 AST/CFG; TeamCity's escaping rules as stated in the property; virtual print/printBuffer of the output class hierarchy write their argument verbatim."),
  "C10": dict(
   technique="custom static checker over clang typed AST/CFG: sibling comparison of locked/unlocked wrappers, who-writes-slot tables, must-call pairing of Lock/Unlock down to pthread, call-graph reachability (CHA + function-pointer points-to) from lock scope to longjmp",
   text="Decides structural necessary conditions of mutual exclusion: every function-pointer slot is switched/saved/restored, each thread-safe wrapper is its unlocked sibling plus a leading RAII lock on the global detector's mutex, the lock reaches pthread_mutex_lock/unlock exactly once, and no longjmp is reachable while the lock is held (4 genuine violations of the last clause are listed as known findings). Schedule-independence of the accounting for all interleavings is not decided.",
@@ -36,7 +40,7 @@ m = {
  "setup_cmd": "./setup.sh",
  "hooks": {"guard": "CPPUTEST_CPPUTEST_VERIF",
            "enable": "none needed: the checks are static; they parse /repo's working tree with the flags of a configure-only cmake run and execute nothing. No hook code exists in /repo.",
-           "baseline_off_cmd": "cmake -S /repo -B /repo/_build -G Ninja && cmake --build /repo/_build -j16 && ctest --test-dir /repo/_build -j8 --timeout 900",
+           "baseline_off_cmd": "rm -rf /tmp/cpv-baseline && cmake -S /repo -B /tmp/cpv-baseline -G Ninja && cmake --build /tmp/cpv-baseline -j16 && ctest --test-dir /tmp/cpv-baseline -j8 --timeout 900; rc=$?; rm -rf /tmp/cpv-baseline; exit $rc",
            "source_commits": [], "add_only": True},
  "engines": [{"name": "cpv", "path": "/verif/check", "serves_properties": [c["property_id"] for c in checks],
               "kind_free_text": "LibTooling fact extractor (tools/cpv-extract.cc: typed AST + clang CFG per function, records, globals, macros) + Python rule library (cpv/: path enumeration with condition atoms, call counting, dominance, call graph with CHA and function-pointer slots, reachability) + one rule module per property (rules/)"}],
